@@ -39,6 +39,19 @@ class Recorder:
         self.alive_value = True
 
 
+def _container_snapshot(obj):
+    """What pickling `obj` now would capture, for the built-in containers a message is usually made of."""
+    if isinstance(obj, list):
+        return [_container_snapshot(x) for x in obj]
+    if isinstance(obj, tuple) and type(obj) is tuple:
+        return tuple(_container_snapshot(x) for x in obj)
+    if isinstance(obj, dict):
+        return {k: _container_snapshot(v) for k, v in obj.items()}
+    if isinstance(obj, set):
+        return set(obj)
+    return obj
+
+
 def recording_mp(rec, queue_script=None):
     """Fake multiprocessing primitives that only record. `queue_script[qid]` = responses for get() on queue qid."""
     queue_script = queue_script or {}
@@ -61,7 +74,8 @@ def recording_mp(rec, queue_script=None):
                 if rec.n_put_calls in getattr(rec, "full_at", ()):
                     rec.ops.append(("full", self.qid))
                     raise Full()
-            rec.ops.append(("put", self.qid, item))
+            # 4th field: the message AS IT IS NOW (a real Queue pickles it later, in the feeder thread, whenever that runs)
+            rec.ops.append(("put", self.qid, item, _container_snapshot(item)))
             self.items.append(item)
 
         def get(self, block=True, timeout=None):
@@ -772,7 +786,8 @@ def sched_mp(S):
                 try:
                     while True:
                         S.op("flush", lambda: len(q.bufs[owner]) > 0)
-                        q.pipe.append(q.bufs[owner].pop(0))
+                        # the feeder thread pickles the object NOW: later mutations by the producer are not seen, earlier ones are
+                        q.pipe.append(_container_snapshot(q.bufs[owner].pop(0)))
                 except Killed:
                     pass
 
